@@ -206,7 +206,35 @@ class Dm14Query:
             )
         return values
 
-    def read(
+    def read(self, *args, **kwargs) -> list:
+        """
+        Send a read query (see _read for the parameters); whatever the outcome,
+        no callback stays subscribed and the state returns to IDLE
+        """
+        try:
+            return self._read(*args, **kwargs)
+        finally:
+            self._finish()
+
+    def write(self, *args, **kwargs) -> None:
+        """
+        Send a write query (see _write for the parameters); whatever the outcome,
+        no callback stays subscribed and the state returns to IDLE
+        """
+        try:
+            self._write(*args, **kwargs)
+        finally:
+            self._finish()
+
+    def _finish(self) -> None:
+        """
+        Leave nothing behind when a query ends (success, error response, timeout)
+        """
+        self._ca.unsubscribe(self._parse_dm15)
+        self._ca.unsubscribe(self._parse_dm16)
+        self.state = QueryState.IDLE
+
+    def _read(
         self,
         dest_address: int,
         direct: int,
@@ -258,7 +286,7 @@ class Dm14Query:
         else:
             return []
 
-    def write(
+    def _write(
         self,
         dest_address: int,
         direct: int,
